@@ -14,3 +14,552 @@ pub fn index_left_f64(list: &[f64], value: f64, left_count: Option<usize>) -> us
 pub fn index_left_i64(list: &[i64], value: i64, left_count: Option<usize>) -> usize {
     index_left(list, &value, left_count)
 }
+
+// ---------------------------------------------------------------------------------------------
+// H2: curves.  (a) read access to the crate-private node map of a `CurveDF`; (b) the Python-facing
+// `Curve` of curves/curve_py.rs, driven exactly as Python drives it: the constructor (`#[new]`,
+// which runs `nodes_into_order`), the `nodes` / `ad` getters, `set_ad_order`, `__getitem__` and
+// `index_value` are private `#[pymethods]`, so they are called through the Python object protocol
+// on the class object of the real `#[pyclass]`.  An embedding interpreter must be initialised by
+// the caller (`pyo3::prepare_freethreaded_python`).  A Rust panic inside a method comes back as a
+// resumed panic (pyo3 `PanicException`), a returned `PyErr` as `Err(text)`.
+
+use crate::calendars::{CalType, Convention, DateRoll, Modifier, NamedCal};
+use crate::curves::curve_py::{Curve, CurveInterpolator};
+use crate::curves::nodes::NodesTimestamp;
+use crate::curves::{
+    CurveDF, CurveInterpolation, FlatBackwardInterpolator, FlatForwardInterpolator,
+    LinearInterpolator, LinearZeroRateInterpolator, LogLinearInterpolator, NullInterpolator,
+};
+use crate::dual::{ADOrder, Number};
+use chrono::NaiveDateTime;
+use indexmap::IndexMap;
+use pyo3::prelude::*;
+
+/// The timestamp-keyed nodes of a `CurveDF`, in stored order.
+pub fn curvedf_nodes<T: CurveInterpolation, U: DateRoll>(c: &CurveDF<T, U>) -> Vec<(i64, Number)> {
+    match &c.nodes {
+        NodesTimestamp::F64(m) => m.iter().map(|(k, v)| (*k, Number::F64(*v))).collect(),
+        NodesTimestamp::Dual(m) => m.iter().map(|(k, v)| (*k, Number::Dual(v.clone()))).collect(),
+        NodesTimestamp::Dual2(m) => m.iter().map(|(k, v)| (*k, Number::Dual2(v.clone()))).collect(),
+    }
+}
+
+/// Handle on an instance of the Python-facing `Curve` class.
+pub struct PyCurve(Py<PyAny>);
+
+fn err_text(e: PyErr) -> String {
+    e.to_string()
+}
+
+/// `Curve(nodes, interpolator, ad, id, convention, modifier, calendar, index_base)` through the
+/// class object; `interpolator` is one of the strings the `interpolation` getter returns.
+pub fn curve_new(
+    nodes: Vec<(NaiveDateTime, Number)>,
+    interpolator: &str,
+    ad: ADOrder,
+    id: &str,
+    index_base: Option<f64>,
+) -> Result<PyCurve, String> {
+    let interp = match interpolator {
+        "linear" => CurveInterpolator::Linear(LinearInterpolator::new()),
+        "log_linear" => CurveInterpolator::LogLinear(LogLinearInterpolator::new()),
+        "linear_zero_rate" => CurveInterpolator::LinearZeroRate(LinearZeroRateInterpolator::new()),
+        "flat_forward" => CurveInterpolator::FlatForward(FlatForwardInterpolator::new()),
+        "flat_backward" => CurveInterpolator::FlatBackward(FlatBackwardInterpolator::new()),
+        "null" => CurveInterpolator::Null(NullInterpolator::new()),
+        _ => return Err("unknown interpolator".to_string()),
+    };
+    let nodes: IndexMap<NaiveDateTime, Number> = IndexMap::from_iter(nodes);
+    let cal = CalType::NamedCal(NamedCal::try_new("all").map_err(err_text)?);
+    Python::with_gil(|py| {
+        let ty = py.get_type::<Curve>();
+        let obj = ty
+            .call1((
+                nodes,
+                interp,
+                ad,
+                id.to_string(),
+                Convention::Act365F,
+                Modifier::ModF,
+                cal,
+                index_base,
+            ))
+            .map_err(err_text)?;
+        Ok(PyCurve(obj.unbind()))
+    })
+}
+
+/// `curve[date]`
+pub fn curve_value(c: &PyCurve, date: NaiveDateTime) -> Result<Number, String> {
+    Python::with_gil(|py| {
+        let v = c.0.bind(py).get_item(date).map_err(err_text)?;
+        v.extract::<Number>().map_err(err_text)
+    })
+}
+
+/// `curve.index_value(date)`
+pub fn curve_index_value(c: &PyCurve, date: NaiveDateTime) -> Result<Number, String> {
+    Python::with_gil(|py| {
+        let v = c.0.bind(py).call_method1("index_value", (date,)).map_err(err_text)?;
+        v.extract::<Number>().map_err(err_text)
+    })
+}
+
+/// `curve.set_ad_order(ad)`
+pub fn curve_set_ad_order(c: &PyCurve, ad: ADOrder) -> Result<(), String> {
+    Python::with_gil(|py| {
+        c.0.bind(py).call_method1("set_ad_order", (ad,)).map_err(err_text)?;
+        Ok(())
+    })
+}
+
+/// `curve.nodes`
+pub fn curve_nodes(c: &PyCurve) -> Result<Vec<(NaiveDateTime, Number)>, String> {
+    Python::with_gil(|py| {
+        let v = c.0.bind(py).getattr("nodes").map_err(err_text)?;
+        let m = v.extract::<IndexMap<NaiveDateTime, Number>>().map_err(err_text)?;
+        Ok(m.into_iter().collect())
+    })
+}
+
+/// `curve.ad`
+pub fn curve_ad(c: &PyCurve) -> Result<ADOrder, String> {
+    Python::with_gil(|py| {
+        let v = c.0.bind(py).getattr("ad").map_err(err_text)?;
+        v.extract::<ADOrder>().map_err(err_text)
+    })
+}
+
+// ---------------------------------------------------------------------------------------------
+// H3: save / load.  `DeserializedObj` (json/json_py.rs) and the Python-facing `Curve` are
+// crate-private; `Tagged` is an opaque public handle on the tagged enum with the operations the
+// C16 / C20 correspondence needs: the tagged and the direct JSON entry points, the bincode state
+// used by `__getstate__` / `__setstate__`, the payload type's own `PartialEq`, read access to the
+// stored shapes, and the public query functions of the payload.  Nothing here changes behaviour.
+pub mod json_hooks {
+    use crate::calendars::{Cal, CalType, NamedCal, UnionCal};
+    use crate::curves::curve_py::{Curve, CurveInterpolator};
+    use crate::curves::nodes::NodesTimestamp;
+    use crate::curves::CurveDF;
+    use crate::dual::{Dual, Dual2, Number, NumberArray2};
+    use crate::fx::rates::FXRates;
+    use crate::json::json_py::DeserializedObj;
+    use crate::json::JSON;
+    use crate::splines::{PPSplineDual, PPSplineDual2, PPSplineF64};
+    use chrono::NaiveDateTime;
+    use serde::{Deserialize, Serialize};
+
+    /// Opaque handle on the crate-private tagged enum of all serialisable Python-visible types.
+    pub struct Tagged(DeserializedObj);
+
+    /// Same serde shape as the crate-private `Curve { inner }` (whose field is module-private).
+    #[derive(Serialize, Deserialize)]
+    struct CurveMirror {
+        inner: CurveDF<CurveInterpolator, CalType>,
+    }
+
+    fn mirror(c: &Curve) -> CurveMirror {
+        bincode::deserialize(&bincode::serialize(c).expect("bincode of Curve"))
+            .expect("Curve and CurveMirror have the same serde shape")
+    }
+
+    fn es<E: std::fmt::Display>(e: E) -> String {
+        e.to_string()
+    }
+
+    fn dual_ok(d: &Dual) -> bool {
+        d.vars.len() == d.dual.len()
+    }
+    fn dual2_ok(d: &Dual2) -> bool {
+        let n = d.vars.len();
+        n == d.dual.len() && d.dual2.shape() == [n, n]
+    }
+
+    pub const KINDS: [&str; 10] = [
+        "Dual",
+        "Dual2",
+        "Cal",
+        "UnionCal",
+        "NamedCal",
+        "FXRates",
+        "Curve",
+        "PPSplineF64",
+        "PPSplineDual",
+        "PPSplineDual2",
+    ];
+
+    impl Tagged {
+        /// `from_json` of json/json_py.rs (the function behind the Python `from_json`).
+        pub fn from_json(json: &str) -> Result<Tagged, String> {
+            DeserializedObj::from_json(json).map(Tagged).map_err(es)
+        }
+        /// `DeserializedObj::X(obj).to_json()` as every `to_json_py` does.
+        pub fn to_json(&self) -> Result<String, String> {
+            self.0.to_json().map_err(es)
+        }
+        pub fn kind(&self) -> &'static str {
+            match &self.0 {
+                DeserializedObj::Dual(_) => "Dual",
+                DeserializedObj::Dual2(_) => "Dual2",
+                DeserializedObj::Cal(_) => "Cal",
+                DeserializedObj::UnionCal(_) => "UnionCal",
+                DeserializedObj::NamedCal(_) => "NamedCal",
+                DeserializedObj::FXRates(_) => "FXRates",
+                DeserializedObj::Curve(_) => "Curve",
+                DeserializedObj::PPSplineF64(_) => "PPSplineF64",
+                DeserializedObj::PPSplineDual(_) => "PPSplineDual",
+                DeserializedObj::PPSplineDual2(_) => "PPSplineDual2",
+            }
+        }
+        pub fn of_dual(d: Dual) -> Tagged {
+            Tagged(DeserializedObj::Dual(d))
+        }
+        pub fn of_dual2(d: Dual2) -> Tagged {
+            Tagged(DeserializedObj::Dual2(d))
+        }
+        pub fn of_cal(c: Cal) -> Tagged {
+            Tagged(DeserializedObj::Cal(c))
+        }
+        pub fn of_union_cal(c: UnionCal) -> Tagged {
+            Tagged(DeserializedObj::UnionCal(c))
+        }
+        pub fn of_named_cal(c: NamedCal) -> Tagged {
+            Tagged(DeserializedObj::NamedCal(c))
+        }
+        pub fn of_fxrates(f: FXRates) -> Tagged {
+            Tagged(DeserializedObj::FXRates(f))
+        }
+        pub fn of_ppspline_f64(s: PPSplineF64) -> Tagged {
+            Tagged(DeserializedObj::PPSplineF64(s))
+        }
+        pub fn of_ppspline_dual(s: PPSplineDual) -> Tagged {
+            Tagged(DeserializedObj::PPSplineDual(s))
+        }
+        pub fn of_ppspline_dual2(s: PPSplineDual2) -> Tagged {
+            Tagged(DeserializedObj::PPSplineDual2(s))
+        }
+
+        /// The payload serialised directly (`serde_json::to_string(&obj)`, what `JSON::to_json`
+        /// does for the types that implement the trait), without the enum tag.
+        pub fn to_json_direct(&self) -> Result<String, String> {
+            match &self.0 {
+                DeserializedObj::Dual(v) => serde_json::to_string(v).map_err(es),
+                DeserializedObj::Dual2(v) => serde_json::to_string(v).map_err(es),
+                DeserializedObj::Cal(v) => v.to_json().map_err(es),
+                DeserializedObj::UnionCal(v) => v.to_json().map_err(es),
+                DeserializedObj::NamedCal(v) => v.to_json().map_err(es),
+                DeserializedObj::FXRates(v) => v.to_json().map_err(es),
+                DeserializedObj::Curve(v) => v.to_json().map_err(es),
+                DeserializedObj::PPSplineF64(v) => serde_json::to_string(v).map_err(es),
+                DeserializedObj::PPSplineDual(v) => serde_json::to_string(v).map_err(es),
+                DeserializedObj::PPSplineDual2(v) => serde_json::to_string(v).map_err(es),
+            }
+        }
+        /// `T::from_json(text)` / `serde_json::from_str::<T>(text)` for the payload type `kind`.
+        pub fn from_json_direct(kind: &str, json: &str) -> Result<Tagged, String> {
+            Ok(Tagged(match kind {
+                "Dual" => DeserializedObj::Dual(serde_json::from_str(json).map_err(es)?),
+                "Dual2" => DeserializedObj::Dual2(serde_json::from_str(json).map_err(es)?),
+                "Cal" => DeserializedObj::Cal(Cal::from_json(json).map_err(es)?),
+                "UnionCal" => DeserializedObj::UnionCal(UnionCal::from_json(json).map_err(es)?),
+                "NamedCal" => DeserializedObj::NamedCal(NamedCal::from_json(json).map_err(es)?),
+                "FXRates" => DeserializedObj::FXRates(FXRates::from_json(json).map_err(es)?),
+                "Curve" => DeserializedObj::Curve(Curve::from_json(json).map_err(es)?),
+                "PPSplineF64" => {
+                    DeserializedObj::PPSplineF64(serde_json::from_str(json).map_err(es)?)
+                }
+                "PPSplineDual" => {
+                    DeserializedObj::PPSplineDual(serde_json::from_str(json).map_err(es)?)
+                }
+                "PPSplineDual2" => {
+                    DeserializedObj::PPSplineDual2(serde_json::from_str(json).map_err(es)?)
+                }
+                _ => return Err("unknown kind".to_string()),
+            }))
+        }
+        /// `bincode::serialize(&obj)` of the payload: the bytes `__getstate__` returns.
+        pub fn to_bincode(&self) -> Result<Vec<u8>, String> {
+            match &self.0 {
+                DeserializedObj::Dual(v) => bincode::serialize(v).map_err(es),
+                DeserializedObj::Dual2(v) => bincode::serialize(v).map_err(es),
+                DeserializedObj::Cal(v) => bincode::serialize(v).map_err(es),
+                DeserializedObj::UnionCal(v) => bincode::serialize(v).map_err(es),
+                DeserializedObj::NamedCal(v) => bincode::serialize(v).map_err(es),
+                DeserializedObj::FXRates(v) => bincode::serialize(v).map_err(es),
+                DeserializedObj::Curve(v) => bincode::serialize(v).map_err(es),
+                DeserializedObj::PPSplineF64(v) => bincode::serialize(v).map_err(es),
+                DeserializedObj::PPSplineDual(v) => bincode::serialize(v).map_err(es),
+                DeserializedObj::PPSplineDual2(v) => bincode::serialize(v).map_err(es),
+            }
+        }
+        /// `bincode::deserialize(bytes)` into the payload type `kind`: what `__setstate__` does
+        /// (there followed by `unwrap`).
+        pub fn from_bincode(kind: &str, b: &[u8]) -> Result<Tagged, String> {
+            Ok(Tagged(match kind {
+                "Dual" => DeserializedObj::Dual(bincode::deserialize(b).map_err(es)?),
+                "Dual2" => DeserializedObj::Dual2(bincode::deserialize(b).map_err(es)?),
+                "Cal" => DeserializedObj::Cal(bincode::deserialize(b).map_err(es)?),
+                "UnionCal" => DeserializedObj::UnionCal(bincode::deserialize(b).map_err(es)?),
+                "NamedCal" => DeserializedObj::NamedCal(bincode::deserialize(b).map_err(es)?),
+                "FXRates" => DeserializedObj::FXRates(bincode::deserialize(b).map_err(es)?),
+                "Curve" => DeserializedObj::Curve(bincode::deserialize(b).map_err(es)?),
+                "PPSplineF64" => DeserializedObj::PPSplineF64(bincode::deserialize(b).map_err(es)?),
+                "PPSplineDual" => {
+                    DeserializedObj::PPSplineDual(bincode::deserialize(b).map_err(es)?)
+                }
+                "PPSplineDual2" => {
+                    DeserializedObj::PPSplineDual2(bincode::deserialize(b).map_err(es)?)
+                }
+                _ => return Err("unknown kind".to_string()),
+            }))
+        }
+        /// The payload type's own `PartialEq` (`Curve.__eq__` compares the `inner` fields);
+        /// `false` when the kinds differ.
+        pub fn same(&self, other: &Tagged) -> bool {
+            match (&self.0, &other.0) {
+                (DeserializedObj::Dual(a), DeserializedObj::Dual(b)) => a == b,
+                (DeserializedObj::Dual2(a), DeserializedObj::Dual2(b)) => a == b,
+                (DeserializedObj::Cal(a), DeserializedObj::Cal(b)) => a == b,
+                (DeserializedObj::UnionCal(a), DeserializedObj::UnionCal(b)) => a == b,
+                (DeserializedObj::NamedCal(a), DeserializedObj::NamedCal(b)) => a == b,
+                (DeserializedObj::FXRates(a), DeserializedObj::FXRates(b)) => a == b,
+                (DeserializedObj::Curve(a), DeserializedObj::Curve(b)) => {
+                    mirror(a).inner == mirror(b).inner
+                }
+                (DeserializedObj::PPSplineF64(a), DeserializedObj::PPSplineF64(b)) => a == b,
+                (DeserializedObj::PPSplineDual(a), DeserializedObj::PPSplineDual(b)) => a == b,
+                (DeserializedObj::PPSplineDual2(a), DeserializedObj::PPSplineDual2(b)) => a == b,
+                _ => false,
+            }
+        }
+        /// The stored shapes, as plain integers (see harness/src/json.rs for the layout).
+        pub fn shape(&self) -> Vec<i64> {
+            fn b(x: bool) -> i64 {
+                if x {
+                    1
+                } else {
+                    0
+                }
+            }
+            fn nondecr(t: &[f64]) -> bool {
+                t.windows(2).all(|w| w[1] >= w[0])
+            }
+            match &self.0 {
+                DeserializedObj::Dual(d) => vec![d.vars.len() as i64, d.dual.len() as i64],
+                DeserializedObj::Dual2(d) => vec![
+                    d.vars.len() as i64,
+                    d.dual.len() as i64,
+                    d.dual2.shape()[0] as i64,
+                    d.dual2.shape()[1] as i64,
+                ],
+                DeserializedObj::Cal(c) => vec![c.holidays.len() as i64, c.week_mask.len() as i64],
+                DeserializedObj::UnionCal(u) => vec![
+                    u.calendars.len() as i64,
+                    u.settlement_calendars.as_ref().map_or(-1, |v| v.len() as i64),
+                ],
+                DeserializedObj::NamedCal(n) => vec![
+                    n.name.chars().count() as i64,
+                    n.union_cal.calendars.len() as i64,
+                    n.union_cal.settlement_calendars.as_ref().map_or(-1, |v| v.len() as i64),
+                ],
+                DeserializedObj::FXRates(f) => {
+                    let (k, r, c) = match &f.fx_array {
+                        NumberArray2::F64(a) => (0, a.shape()[0], a.shape()[1]),
+                        NumberArray2::Dual(a) => (1, a.shape()[0], a.shape()[1]),
+                        NumberArray2::Dual2(a) => (2, a.shape()[0], a.shape()[1]),
+                    };
+                    vec![f.fx_rates.len() as i64, f.currencies.len() as i64, k, r as i64, c as i64]
+                }
+                DeserializedObj::Curve(c) => {
+                    let m = mirror(c).inner;
+                    let keys = m.nodes.keys();
+                    let sorted = keys.windows(2).all(|w| w[0] < w[1]);
+                    let (k, wf) = match &m.nodes {
+                        NodesTimestamp::F64(_) => (0, true),
+                        NodesTimestamp::Dual(i) => (1, i.values().all(dual_ok)),
+                        NodesTimestamp::Dual2(i) => (2, i.values().all(dual2_ok)),
+                    };
+                    vec![keys.len() as i64, k, b(sorted), b(wf)]
+                }
+                DeserializedObj::PPSplineF64(s) => vec![
+                    *s.inner.k() as i64,
+                    s.inner.t().len() as i64,
+                    *s.inner.n() as i64,
+                    s.inner.c().as_ref().map_or(-1, |c| c.len() as i64),
+                    b(nondecr(s.inner.t())),
+                    1,
+                ],
+                DeserializedObj::PPSplineDual(s) => vec![
+                    *s.inner.k() as i64,
+                    s.inner.t().len() as i64,
+                    *s.inner.n() as i64,
+                    s.inner.c().as_ref().map_or(-1, |c| c.len() as i64),
+                    b(nondecr(s.inner.t())),
+                    b(s.inner.c().as_ref().map_or(true, |c| c.iter().all(dual_ok))),
+                ],
+                DeserializedObj::PPSplineDual2(s) => vec![
+                    *s.inner.k() as i64,
+                    s.inner.t().len() as i64,
+                    *s.inner.n() as i64,
+                    s.inner.c().as_ref().map_or(-1, |c| c.len() as i64),
+                    b(nondecr(s.inner.t())),
+                    b(s.inner.c().as_ref().map_or(true, |c| c.iter().all(dual2_ok))),
+                ],
+            }
+        }
+        pub fn as_dual(&self) -> Option<&Dual> {
+            match &self.0 {
+                DeserializedObj::Dual(v) => Some(v),
+                _ => None,
+            }
+        }
+        pub fn as_dual2(&self) -> Option<&Dual2> {
+            match &self.0 {
+                DeserializedObj::Dual2(v) => Some(v),
+                _ => None,
+            }
+        }
+        pub fn as_cal(&self) -> Option<&Cal> {
+            match &self.0 {
+                DeserializedObj::Cal(v) => Some(v),
+                _ => None,
+            }
+        }
+        pub fn as_union_cal(&self) -> Option<&UnionCal> {
+            match &self.0 {
+                DeserializedObj::UnionCal(v) => Some(v),
+                _ => None,
+            }
+        }
+        pub fn as_named_cal(&self) -> Option<&NamedCal> {
+            match &self.0 {
+                DeserializedObj::NamedCal(v) => Some(v),
+                _ => None,
+            }
+        }
+        /// The `name` a `NamedCal` stores.
+        pub fn named_cal_name(&self) -> Option<String> {
+            match &self.0 {
+                DeserializedObj::NamedCal(v) => Some(v.name.clone()),
+                _ => None,
+            }
+        }
+        pub fn as_fxrates(&self) -> Option<&FXRates> {
+            match &self.0 {
+                DeserializedObj::FXRates(v) => Some(v),
+                _ => None,
+            }
+        }
+        /// Currency codes of an `FXRates`, in stored order.
+        pub fn fx_currencies(&self) -> Option<Vec<String>> {
+            match &self.0 {
+                DeserializedObj::FXRates(v) => {
+                    Some(v.currencies.iter().map(|c| c.name.to_string()).collect())
+                }
+                _ => None,
+            }
+        }
+        pub fn as_ppspline_f64(&self) -> Option<&PPSplineF64> {
+            match &self.0 {
+                DeserializedObj::PPSplineF64(v) => Some(v),
+                _ => None,
+            }
+        }
+        pub fn as_ppspline_dual(&self) -> Option<&PPSplineDual> {
+            match &self.0 {
+                DeserializedObj::PPSplineDual(v) => Some(v),
+                _ => None,
+            }
+        }
+        pub fn as_ppspline_dual2(&self) -> Option<&PPSplineDual2> {
+            match &self.0 {
+                DeserializedObj::PPSplineDual2(v) => Some(v),
+                _ => None,
+            }
+        }
+        /// `curve[date]` (`CurveDF::interpolated_value` on the `inner` field).
+        pub fn curve_value(&self, date: &NaiveDateTime) -> Option<Number> {
+            match &self.0 {
+                DeserializedObj::Curve(c) => Some(mirror(c).inner.interpolated_value(date)),
+                _ => None,
+            }
+        }
+        /// `curve.index_value(date)`.
+        pub fn curve_index_value(&self, date: &NaiveDateTime) -> Option<Result<Number, String>> {
+            match &self.0 {
+                DeserializedObj::Curve(c) => Some(mirror(c).inner.index_value(date).map_err(es)),
+                _ => None,
+            }
+        }
+        /// Timestamp-keyed nodes of a curve, in stored order.
+        pub fn curve_nodes(&self) -> Option<Vec<(i64, Number)>> {
+            match &self.0 {
+                DeserializedObj::Curve(c) => Some(super::curvedf_nodes(&mirror(c).inner)),
+                _ => None,
+            }
+        }
+        /// The calendar of a curve answers `is_bus_day` / `is_settlement`.
+        pub fn curve_cal_flags(&self, date: &NaiveDateTime) -> Option<(bool, bool)> {
+            use crate::calendars::DateRoll;
+            match &self.0 {
+                DeserializedObj::Curve(c) => {
+                    let m = mirror(c).inner;
+                    Some((m.calendar.is_bus_day(date), m.calendar.is_settlement(date)))
+                }
+                _ => None,
+            }
+        }
+        /// `PPSplineF64 { inner: PPSpline::new(k, t, c) }` (what the Python constructor does).
+        pub fn ppspline_f64(k: usize, t: Vec<f64>, c: Option<Vec<f64>>) -> Tagged {
+            Tagged(DeserializedObj::PPSplineF64(PPSplineF64 {
+                inner: crate::splines::PPSpline::new(k, t, c),
+            }))
+        }
+        pub fn ppspline_dual(k: usize, t: Vec<f64>, c: Option<Vec<Dual>>) -> Tagged {
+            Tagged(DeserializedObj::PPSplineDual(PPSplineDual {
+                inner: crate::splines::PPSpline::new(k, t, c),
+            }))
+        }
+        pub fn ppspline_dual2(k: usize, t: Vec<f64>, c: Option<Vec<Dual2>>) -> Tagged {
+            Tagged(DeserializedObj::PPSplineDual2(PPSplineDual2 {
+                inner: crate::splines::PPSpline::new(k, t, c),
+            }))
+        }
+        /// A `Curve` whose `inner` is `CurveDF::try_new(..)` of the given parts; `interpolator`
+        /// is one of the strings the `interpolation` getter returns.
+        pub fn curve(
+            nodes: crate::curves::Nodes,
+            interpolator: &str,
+            id: &str,
+            convention: crate::calendars::Convention,
+            modifier: crate::calendars::Modifier,
+            index_base: Option<f64>,
+            calendar: CalType,
+        ) -> Result<Tagged, String> {
+            use crate::curves::{
+                FlatBackwardInterpolator, FlatForwardInterpolator, LinearInterpolator,
+                LinearZeroRateInterpolator, LogLinearInterpolator, NullInterpolator,
+            };
+            let interp = match interpolator {
+                "linear" => CurveInterpolator::Linear(LinearInterpolator::new()),
+                "log_linear" => CurveInterpolator::LogLinear(LogLinearInterpolator::new()),
+                "linear_zero_rate" => {
+                    CurveInterpolator::LinearZeroRate(LinearZeroRateInterpolator::new())
+                }
+                "flat_forward" => CurveInterpolator::FlatForward(FlatForwardInterpolator::new()),
+                "flat_backward" => CurveInterpolator::FlatBackward(FlatBackwardInterpolator::new()),
+                "null" => CurveInterpolator::Null(NullInterpolator::new()),
+                _ => return Err("unknown interpolator".to_string()),
+            };
+            let inner =
+                CurveDF::try_new(nodes, interp, id, convention, modifier, index_base, calendar)
+                    .map_err(es)?;
+            let c: Curve = bincode::deserialize(
+                &bincode::serialize(&CurveMirror { inner }).map_err(es)?,
+            )
+            .map_err(es)?;
+            Ok(Tagged(DeserializedObj::Curve(c)))
+        }
+    }
+}
